@@ -1,22 +1,24 @@
 /*VERIF
-{ "tu": "src/event/event.c", "enforce": "_dispatch_timer_unote_configure", "props": ["C11"], "seq": true, "timeout": 200,
+{ "tu": "src/event/event.c", "enforce": "_dispatch_timer_unote_configure", "props": ["C11", "C12"], "seq": true, "timeout": 200,
   "stub_note": "_dispatch_timer_unote_resume (own contract): logged call; free of the config record: counted" }
 VERIF*/
 #ifdef VERIF_PRE
 #else
-struct dispatch_timer_source_refs_s H_dt; struct dispatch_timer_config_s H_cfg; unsigned H_frees, H_resumes; _Bool H_pending_cleared_before_resume;
-static void _dispatch_timer_unote_resume(dispatch_timer_source_refs_t dt) { H_resumes++; H_pending_cleared_before_resume = (dt->ds_pending_data == 0 && dt->dt_pending_config == 0); }
+struct dispatch_timer_source_refs_s H_dt; struct dispatch_timer_config_s H_cfg; unsigned H_frees, H_resumes; _Bool H_pending_cleared_before_resume, H_clock_switched_before_resume;
+static void _dispatch_timer_unote_resume(dispatch_timer_source_refs_t dt) { H_resumes++; H_pending_cleared_before_resume = (dt->ds_pending_data == 0 && dt->dt_pending_config == 0);
+  /* C12 "never changes clock": the heap the timer is re-sorted into is chosen from these flags, so they must already name the clock of the NEW start time */
+  H_clock_switched_before_resume = (_dispatch_timer_flags_to_clock(dt->du_timer_flags) == H_cfg.dtc_clock); }
 void free(void *p) { if (p == &H_cfg) H_frees++; }
 VERIF_CONTRACT_VOID(_dispatch_timer_unote_configure, (dispatch_timer_source_refs_t dt),
   REQ(dt == &H_dt && H_dt.dt_pending_config == &H_cfg && H_frees == 0 && H_resumes == 0 && __verif_n == 0)
-  ASG(__CPROVER_object_whole(&H_dt), H_frees, H_resumes, H_pending_cleared_before_resume, VERIF_GHOST)
+  ASG(__CPROVER_object_whole(&H_dt), H_frees, H_resumes, H_pending_cleared_before_resume, H_clock_switched_before_resume, VERIF_GHOST)
   /* the timer follows ONLY the new settings: they replace the old ones entirely, on the new clock ... */
   ENS(installs_exactly_the_pending_configuration, H_dt.dt_timer.target == H_cfg.dtc_timer.target && H_dt.dt_timer.deadline == H_cfg.dtc_timer.deadline &&
         H_dt.dt_timer.interval == H_cfg.dtc_timer.interval && H_dt.dt_pending_config == 0 && H_frees == 1)
   ENS(switches_to_the_clock_of_the_new_start_time, _dispatch_timer_flags_to_clock(H_dt.du_timer_flags) == H_cfg.dtc_clock)
   /* ... and fire counts accumulated under the old settings are discarded, whether or not the timer is currently armed */
   ENS(old_pending_fire_counts_are_always_discarded, H_dt.ds_pending_data == 0)
-  ENS(armed_timer_is_resifted_after_the_switch, ((H_dt.du_state & DU_STATE_ARMED) != 0) == (H_resumes == 1) && VIMPL(H_resumes == 1, H_pending_cleared_before_resume))
+  ENS(armed_timer_is_resifted_after_the_switch, ((H_dt.du_state & DU_STATE_ARMED) != 0) == (H_resumes == 1) && VIMPL(H_resumes == 1, H_pending_cleared_before_resume && H_clock_switched_before_resume))
 )
 void harness(void)
 {
